@@ -35,3 +35,5 @@ def step (_ : Unit) (ws : List String) : Unit × String :=
 
 def run : IO Unit := runLoop (fun _ => ()) step
 end Sop.Driver.C24
+
+def main : IO Unit := Sop.Driver.C24.run
